@@ -78,3 +78,43 @@ META["C16"] = dict(
         "end-to-end link graphs are sampled, not enumerated",
     ],
 )
+
+META["C02"] = dict(
+    title="Accepted values conform to the declared type; acceptance is compositional",
+    level="exploration",
+    level_text="Runtime monitoring of the real parser over generated type hints (depth<=3 quick / <=4 thorough): an independent "
+    "structural validator judges every accepted result at the API boundary and, through an icontract postcondition on "
+    "adapt_typehints, at every nesting level; conforming natives must be accepted, irrecoverable near misses rejected; container "
+    "and Union acceptance are compared metamorphically with what the real parser says about the parts, over all member permutations.",
+    level_note="Trusted: vf.models.conform (structural typing rules) and the generator's notion of a near miss. Sampled, not "
+    "exhaustive; string-encoded containers below the top level are outside (c) by design of the loader.",
+    shards=g(4, 16),
+    budget=g(45, 300),
+    technique="independent conformance oracle on results (boundary + icontract postcondition on adapt_typehints) and metamorphic "
+    "comparison of container/Union acceptance with element/member acceptance on the real parser",
+    rule="basic: (type skeleton) x 3 conforming natives (object + config text) x 3 near misses x 3 look-alike argv strings; "
+    "container: (container kind, element type, per-element accept vector, channel); union: (member set, channel, value) over "
+    "all (thorough) / 6 (quick) permutations. Distinct = hash of that tuple; non-trivial = the parser reached a decision.",
+    gates={
+        "mon.a.boundary_conformance": g(3000, 30000),
+        "mon.a.internal_contract": g(10000, 100000),
+        "mon.b.conforming_native": g(1000, 10000),
+        "mon.b2.nearmiss": g(500, 5000),
+        "mon.c.container_vs_elements.object": g(300, 3000),
+        "mon.c.container_vs_elements.config": g(200, 2000),
+        "mon.d.union_values": g(500, 5000),
+        "st.accept.list": g(30, 300), "st.reject.list": g(30, 300),
+        "st.accept.dict": g(30, 300), "st.reject.dict": g(30, 300),
+        "st.accept.tuple": g(30, 300), "st.reject.tuple": g(30, 300),
+        "st.accept.set": g(30, 300), "st.reject.set": g(30, 300),
+        "st.accept.union": g(30, 300), "st.reject.union": g(30, 300),
+        "st.accept.enum": g(30, 300), "st.reject.enum": g(30, 300),
+        "st.accept.literal": g(30, 300), "st.reject.literal": g(30, 300),
+        "st.accept.rnum": g(30, 300), "st.reject.rnum": g(30, 300),
+        "st.accept.reg": g(30, 300), "st.reject.reg": g(30, 300),
+    },
+    assumptions=[
+        "which Union member's reading of a value wins is order dependent by documentation and is not judged",
+        "a None result at a non-Optional position is outside 'every non-null value conforms'",
+    ],
+)
